@@ -173,12 +173,28 @@ def audit(mods, timeout=1200):
 class LeanDriver:
     """Line protocol to `lake env lean --run Driver/<name>.lean` (batch mode: all requests, then all replies)."""
 
+    _built = set()
+
     def __init__(self, name: str):
         self.name = name
+
+    def ensure_built(self):
+        """the driver is interpreted (`lean --run`) against compiled .olean files: build what it imports (a no-op when
+        the property's own modules already pulled them in)"""
+        if self.name in LeanDriver._built:
+            return
+        src = (LEAN / "Driver" / f"{self.name}.lean").read_text()
+        mods = re.findall(r"^import (HalmosVerif\.\S+)", src, flags=re.M)
+        if mods:
+            rc, out = lake_build(mods)
+            if rc != 0:
+                raise RuntimeError(f"Lean driver {self.name}: building its imports failed\n" + out[-1500:])
+        LeanDriver._built.add(self.name)
 
     def ask(self, lines, timeout=1800):
         if not lines:
             return []
+        self.ensure_built()
         data = "\n".join(lines) + "\n"
         if os.environ.get("VERIF_DEBUG_DRIVER"):
             Path(os.environ["VERIF_DEBUG_DRIVER"]).write_text(data)
